@@ -59,12 +59,23 @@ def gen_tree(rnd, maxents=8, sizes=(0, 1, 2, 10, 10, 300), depth_bias=0.5):
                               "../rootx", "s2/..", "/", "../" * 12 + BASE + "/outer/secret5.txt", "../" * 6 + "x", "a:b", "x:/a.txt",
                               "./a.txt", "sub/../a.txt"])
             t.ents.append(("L", p, tgt))
+    if rnd.random() < 0.12 and (not t.has("outer/root/sub") or "outer/root/sub" in t.dirs):
+        # a link in a subdirectory that climbs one level and stays inside the root: resolved from the wrong base (the root instead of the
+        # link's own directory) it would name the marked file one level above the root
+        if not t.has("outer/root/sub"):
+            t.ents.append(("D", "outer/root/sub")); t.dirs.append("outer/root/sub")
+        if rnd.random() < 0.6 and not t.has("outer/root/secret5.txt"):
+            t.ents.append(("F", "outer/root/secret5.txt", b"public-inside"))
+        if not t.has("outer/root/sub/up.txt"):
+            t.ents.append(("L", "outer/root/sub/up.txt", "../secret5.txt"))
     return t
 
 
 def gen_target(rnd, t):
     inroot = t.inroot()
     r = rnd.random()
+    if t.has("outer/root/sub/up.txt") and rnd.random() < 0.5:
+        return "/sub/up.txt"
     if rnd.random() < 0.06:
         # long targets: many harmless segments, then a climb (a scan that stops early, a counter that wraps)
         k = rnd.choice([15, 30, 31, 32, 33, 64, 127, 128, 255, 256, 300])
